@@ -184,6 +184,8 @@ func (r *Raft) Serve(l net.Listener) error {
 		return err
 	}
 	defer unlockDir(storageDir)
+	verifServing(r, true)
+	defer verifServing(r, false)
 	if trace {
 		println(r, "serving at", l.Addr())
 		defer println(r, "<< shutdown()")
@@ -213,6 +215,7 @@ func (r *Raft) Serve(l net.Listener) error {
 			return err
 		}
 		r.commitIndex = r.snaps.index
+		verifCommit(r)
 	}
 
 	s := newServer(r, l)
@@ -369,6 +372,7 @@ func (r *Raft) stateLoop() {
 				l.transfer.newTermTimer.active = false
 				l.onNewTermTimeout()
 			}
+			verifStep(r)
 		}
 		r.timer.stop()
 		states[state].release()
